@@ -260,7 +260,8 @@ CLAIMED["C17"] = dict(
 
 CLAIMED["C01"] = dict(
     text="Lean theorems C01_core / C01_core_expr / C01_core_defined (Props/C01.lean): for the core fragment - Booleans and "
-         "integers of EVERY width, literals, variables, !, unary -, +, -, <, >, <=, >=, ==, !=, & | ^ on Booleans, && and ||, "
+         "integers of EVERY width, literals, variables, !, unary -, +, -, *, /, %, <<, >>, <, >, <=, >=, ==, !=, & | ^ on Booleans, "
+         "&& and ||, "
          "`as` between all these types, if/else as expression and as statement, blocks, (), let, let mut, assignment to a "
          "variable (also inside branches and short-circuit operands) - and for every program body, environment of well-typed "
          "values and fuel: if the source semantics (Model/SrcSem.lean) return a value, the bit-level evaluation Bit.bitStmts - "
@@ -269,8 +270,9 @@ CLAIMED["C01"] = dict(
          "no panic, and variables whose wires encode the final source environment; if they fail it reports exactly that "
          "failure (first failing operation); the source semantics are never stuck on such a program (type soundness). The "
          "proof rests on the all-width correctness of the adder, subtractor, comparator, equality, negation and cast circuits "
-         "(Proofs/Arith*.lean, BitOps.lean). PARTIAL: the fragment excludes *, /, %, shifts, bitwise operators on integers, "
-         "aggregates, match, loops, calls and assignment through accessors; for those, and for the step from Bit.bitStmts to "
+         "(Proofs/Arith*.lean, BitOps*.lean) and of the multiplier, divider and shifter. PARTIAL: the fragment excludes bitwise "
+         "operators on integers, multiplication by a literal (compiled as repeated addition), aggregates, match, loops, calls "
+         "and assignment through accessors; for those, and for the step from Bit.bitStmts to "
          "real gates, the property is explored: generated programs (the generator builds the syntax tree itself) are compiled "
          "as SSA and register circuit with and without de-duplication and compared with the Lean source semantics on 6 "
          "argument tuples each; programs of the fragment are additionally run through Bit.bitStmts, which must agree with the "
